@@ -18,7 +18,8 @@
                                 poll of ch (one poll after every completed iteration); `ponder -`: no channel.
         → `<score> <move> <ponder> <Counters.Nodes> <Counters.ABNodes> <fuelOut> <anomaly> | <info>;<info>;… | <digest>`
           info = `<depth>:<1 = completed iteration, 0 = abort notice>:<score>:<nodes>:<hashfull>:<pv moves, comma separated>`
-          (`-` when there is no line), `<fuelOut>` (0/1) and `<anomaly>` (bit 0 = `St.anomaly`, bit 1 = `St.nmpOut`, bit 2 = a raw table value beyond ±Inf)
+          (`-` when there is no line), `<fuelOut>` (0/1) and `<anomaly>` (bit 0 = `St.anomaly`, bit 1 = `St.nmpOut`, bit 2 = a raw table value beyond ±Inf,
+          bit 3 = `St.ttOut`: a value that is not ply-consistent was handed to a table store)
           the ghost flags of the skeleton.
         → `err fen` / `err args` on malformed requests.
     gog <same arguments as go>  the same search, and ADDITIONALLY the same `Search.go` from the same engine state
@@ -104,10 +105,11 @@ def infoStr (i : Search.Info) : String :=
 
 def bstr (x : Bool) : String := if x then "1" else "0"
 
-/-- the two ghost flags in one field: bit 0 = `anomaly`, bit 1 = `nmpOut` (the mate branch of null-move
-    pruning returned a `beta` below `-Inf + ply`). -/
-def flagStr (anomaly nmpOut rawOut : Bool) : String :=
-  toString ((if anomaly then 1 else 0) + (if nmpOut then 2 else 0) + (if rawOut then 4 else 0))
+/-- the ghost flags in one field: bit 0 = `anomaly`, bit 1 = `nmpOut` (the mate branch of null-move
+    pruning returned a `beta` below `-Inf + ply`), bit 2 = a raw table value beyond `±Inf`, bit 3 = `ttOut`
+    (a table store was handed a value beyond `±max(Inf-MaxPlies, Inf-ply)`). -/
+def flagStr (anomaly nmpOut rawOut ttOut : Bool) : String :=
+  toString ((if anomaly then 1 else 0) + (if nmpOut then 2 else 0) + (if rawOut then 4 else 0) + (if ttOut then 8 else 0))
 
 /-- some entry of the table holds a raw value beyond `±Inf` (the negation of `TTValsOK`). -/
 def rawBeyond (ps : SearchReal.PS) : Bool :=
@@ -144,7 +146,7 @@ def parseGo (ws : List String) : Option GoArgs :=
 /-- the head and the info lines of an answer. -/
 def resultStr (r : Search.Result SearchReal.PS) : String :=
   let infos := if r.out.isEmpty then "-" else String.intercalate ";" (r.out.reverse.map infoStr)
-  s!"{r.score} {r.move} {r.ponder} {r.st.nodes} {r.st.abNodes} {bstr r.st.fuelOut} {flagStr r.st.anomaly r.st.nmpOut (rawBeyond r.st.ps)} | {infos}"
+  s!"{r.score} {r.move} {r.ponder} {r.st.nodes} {r.st.abNodes} {bstr r.st.fuelOut} {flagStr r.st.anomaly r.st.nmpOut (rawBeyond r.st.ps) r.st.ttOut} | {infos}"
 
 def runGo (st : DS) (a : GoArgs) (guard : Bool) : DS × String :=
   let K := mkKeys st.keysArr
